@@ -90,11 +90,17 @@ def full_run(tier, seed, log=print):
     r.em, r.path, r.lines = em, path, em.lines
     r.res = P.run_verus(path)
     r.havoc = []
+    r.havoc_fns = set()
     final_text = text
     # Unmodelled external (std) functions: Verus names the missing specification; it is added with NO postcondition
     # (result unconstrained, no panic assumed) and the run is repeated.  Logged in evidence/replay.
     for _round in range(4):
-        decls = P.suggested_external_specs(r.res)
+        sites = []
+        decls = P.suggested_external_specs(r.res, sites)
+        for ln in sites:
+            for l0, l1, key, tags in em.fn_ranges:
+                if ln is not None and l0 <= ln <= l1:
+                    r.havoc_fns.add(key)
         decls = [d for d in decls if d not in r.havoc]
         if not decls:
             break
@@ -217,6 +223,19 @@ def decide(prop, r, tier, seed, meta):
     calls = [c for c in r.call_sites if prop in c["tags"]]
     failures = [f for f in r.an.failures if prop in P.failure_tags(f) and not (f.get("cascade_of_panic") and prop != "C16")]
     undec = [u for u in r.an.undecided if u["fn"] is None or any(u["fn"] == f["key"] and prop in f["tags"] for f in em.functions)]
+    # a failure inside a function some of whose annotations could not be placed (its source changed shape) cannot be told
+    # from a lost proof hint: such failures are reported as UNDECIDED (exit 2), never as a violation
+    deg_fns = {}
+    for d in em.degraded:
+        if ": orphan: " in d:
+            continue      # annotation of a construct that no longer exists (see gen.py): not a lost hint
+        deg_fns.setdefault(d.split(": ")[0], []).append(d)
+    undec_deg = [f for f in failures if f["fn"] in deg_fns]
+    failures = [f for f in failures if f not in undec_deg]
+    # likewise a failure inside a function that calls an external function for which there is no model (its result is
+    # treated as unconstrained): unsupported construct, not a violation
+    undec_havoc = [f for f in failures if f["fn"] in getattr(r, "havoc_fns", set())]
+    failures = [f for f in failures if f not in undec_havoc]
     known = load_known()
     new_fail, known_hit = [], []
     for f in failures:
@@ -239,6 +258,16 @@ def decide(prop, r, tier, seed, meta):
     code = 0
     if undec:
         out.append("UNDECIDED property=%s: %s" % (prop, "; ".join("%s in %s" % (u["what"], u["fn"]) for u in undec[:5])))
+        code = 2
+    if undec_deg:
+        fl = sorted({(f["ob"] or ("%s@%s" % (f["kind"], f["fn"]))) for f in undec_deg})
+        out.append("UNDECIDED property=%s: %s not discharged, but annotations of the enclosing function could not be placed because its source changed shape (%s), so a lost proof hint cannot be told from a violation" % (
+            prop, ",".join(fl)[:400], "; ".join(sorted({d for f in undec_deg for d in deg_fns[f["fn"]]}))[:400]))
+        code = 2
+    if undec_havoc:
+        fl = sorted({(f["ob"] or ("%s@%s" % (f["kind"], f["fn"]))) for f in undec_havoc})
+        out.append("UNDECIDED property=%s: %s not discharged, but the enclosing function calls external functions that have no model here (%s); their results are unconstrained, so this is an unsupported construct, not a violation" % (
+            prop, ",".join(fl)[:400], ", ".join(d.split("]")[0].split("[")[-1] for d in r.havoc)[:300]))
         code = 2
     if vac_bad:
         out.append("UNDECIDED property=%s: vacuity probe did not fail (contradictory requires/axioms?) in %s" % (prop, vac_bad[:5]))
